@@ -37,6 +37,10 @@ CHECKS = {
    text="Generated pandas and polars DataFrameSchemas with rich attributes are driven through programs of up to 5 transforming requests (add, remove, select, rename, update_column(s), set_index, reset_index, update_checks, set_checks) plus interleaved invalid requests; each request is mirrored on a real accepted frame. Monitors at every step: receiver fingerprint unchanged; every attribute not named by the request fingerprint-equal (incl. Index<->Column carry-over and MultiIndex options); accept(op(S), op(D)); a bad value in an untouched column stays rejected; the four inverse laws give a schema == and fingerprint-equal to S; invalid requests raise SchemaInitError/ValueError and return nothing.",
    note="set_index/reset_index judged for pandas only (polars frames have no index); where reset_index inserts former levels is judged only through the mirror on ordered=True schemas (open finding); coerce folded into the level left by a dissolved MultiIndex(coerce=True) not judged; updates are neutral, relaxing or data-satisfying only. Trusted: pvm.fingerprint, pvm.harness, pandas/polars as frame libraries.",
    ref="4/C15"),
+ "C09": dict(cat="exploration", tech="exhaustive enumeration of the live dtype registries of every engine, driven through the real Engine.dtype / == / hash / str / DataType.check with equivalence, round-trip and recognition oracles",
+   text="For the numpy, pandas(+pyarrow), polars and pyspark dtype engines the check reads the live registries and drives the real Engine.dtype, ==, hash, str and DataType.check over every equivalents key, every registered class, every dispatch-registered native class, hand-transcribed families of documented-equivalent spellings, all numpy aliases and seeded parameterisations (time zones, units, categories, decimal precision/scale, nested Arrow/polars/pyspark types). Asserted: every spelling resolves; resolution is idempotent; equivalent spellings resolve to equal, equally hashed objects; the printed name of a primitive type resolves back to it (numpy, pandas, pyspark); every resolved type recognises itself; t1.check(t2) over all ordered pairs of physical types implies equal (kind, signedness, width); a spelling resolves to the same object before and after the rest of the run. The registry part is complete (exhaustive: true); parameters are sampled.",
+   note="Native (kind, sign, width) taken from numpy/pandas/pyarrow/polars/pyspark themselves; the documented-equivalence table is transcribed by hand from the docs (pvm/c09_engines.py). Not judged (counted undecided): round trip of Decimal, parameterised Category, Period/Sparse/Interval/pydantic/python-generic types, Arrow nested/binary/decimal/dictionary types and names pandas cannot parse; datetime units other than ns in the pandas engine (documented unsupported). Only the pyspark dtype engine is covered, not pyspark.sql validation.",
+   ref="4/C09"),
  "C11": dict(cat="exploration", tech="reference-model oracle over row identities of the real validate(lazy=True) output; docs examples executed",
    text="Rows carry a hidden identity (unique int / string / MultiIndex labels; content+order on polars); after the real validate with drop_invalid_rows=True the surviving identities and values are compared with the rows on which the reference model finds every row-level constraint satisfied, in order; cases with a non-row violation must raise SchemaErrors (never return, never TypeError). The four examples of docs/source/drop_invalid_rows.md run as fixed cases.",
    note="Unique non-null index labels (documented limitation); exact coercion only (int/float/datetime retyping); SeriesSchema with a failing index schema not judged; trusts pvm/model.py.",
